@@ -290,6 +290,11 @@ def _drive(rep: Report, tier: str, seed: int, P: Any, d: Path, futs: dict[str, A
             for o in (hr_ops if not big else hr_ops[:3]):
                 batch.add(w, P.run_hr_session(c, o, argv=P.hr_argv(o, rnd), content=not big), mh)
 
+    # a long run whose writer thread is held up while the run keeps logging (slow / remote artifacts directory)
+    wslow = P.write_log(dict(P.spec_random(seed, 1002, 15000 if quick else 80000, "plain"), slow_writer=True), d, "slow")
+    cslow = P.Container(wslow, "zst", "all", d)
+    for o in (P.op("fwd", 8), P.op("len"), P.op("tail", 8, 3)):
+        batch.add(wslow, P.run_reader_session(cslow, [o]), meta("reader", cslow, "writer-held-up"))
     mark("drive_random")
     # ---- 3. spec -> code: behaviours of the design layer (all deviations off) replayed on real logs
     _collect_mc(rep, futs)
